@@ -5,10 +5,14 @@ Model of the bridging machinery of `navis.transforms` (C08), import-free:
   `lru_cache` of `bridging_graph` as a small state machine (`RegState`, `register`, `graphCached`);
 * `bridging_graph`: a multigraph with one forward edge per bridging registration and one reverse
   edge (carrying `-transform`, weight scaled by `reciprocal`) per *invertible* bridging registration;
-* `find_bridging_path`: node checks, the `via` / `avoid` decision logic AS WRITTEN
-  (`acceptAsWritten`) and as it should be (`acceptRepaired`), the choice among parallel edges
-  (`sorted(edges, key=weight)[-1]`), a fuel-bounded enumerator of simple paths;
-* `TransformSequence.xform / __neg__` over rows `Option π` (`none` = a row containing NaN).
+* `find_bridging_path`: node checks, the `via` / `avoid` decision logic as the property means it
+  (`acceptRepaired`), as a function of the loop body extracted from the CURRENT source (`acceptOf`,
+  `findPathG`; the extracted body lives in `Gen/Bridge.lean` and is proved equal to `acceptRepaired`
+  in `Props/C08`) and — HISTORICAL — as it was written before the repair `0eaf94d`
+  (`acceptAsWritten`), the choice among parallel edges (`sorted(edges, key=weight)[-1]`), a
+  fuel-bounded enumerator of simple paths;
+* `TransformSequence.xform / __neg__` over rows `Option π` (`none` = a row containing NaN),
+  `TransformSequence.__init__ / append` with members that merge into their predecessor (`seqBuild`).
 
 Templates are natural numbers (the harness maps names to indices), transforms are an abstract
 type `τ`; `TGroup τ` states the laws the telescoping theorem needs.
@@ -122,7 +126,9 @@ def nodupB : List Nat → Bool
 def acceptRepaired (via avoid : List Nat) (path : List Nat) : Bool :=
   via.all (path.contains ·) && !avoid.any (path.contains ·)
 
-/-- The loop body of `find_bridging_path` AS WRITTEN:
+/-- HISTORICAL (the source before the repair `0eaf94d`; the current source is modelled by
+`acceptOf Navis.Gen.Bridge.acceptTree`, proved equal to `acceptRepaired`).  The loop body of
+`find_bridging_path` AS IT WAS WRITTEN:
 ```
 if via and all([v in path for v in via]):
     if avoid:
@@ -290,5 +296,117 @@ def rowSeq {π} (fs : List (π → Option π)) (r : Option π) : Option π :=
 
 /-- `TransformSequence.__neg__`: `[-t for t in self.transforms[::-1]]`. -/
 def negSeq {τ} (neg : τ → τ) (ts : List τ) : List τ := ts.reverse.map neg
+
+/-! ## The code of the CURRENT source, parameterised by what the translator extracts
+
+`acceptAsWritten` above is HISTORICAL: it is the loop body of `find_bridging_path` before the repair
+`0eaf94d` (kept because `Props/C08` proves it violates the property, and as a regression witness).
+The loop body of the current source is re-extracted on every run (`Gen/Bridge.lean`,
+`Navis.Gen.Bridge.acceptTree`) as a Boolean function of the four facts it tests; `acceptOf` turns such
+a function into a loop body, `Props/C08.source_decision_is_repaired` proves the result equal to
+`acceptRepaired`. -/
+
+/-- A loop body given as a function of: `via` truthy, all `via` on the path, `avoid` truthy, some
+`avoid` on the path. -/
+def acceptOf (f : Bool → Bool → Bool → Bool → Bool) (via avoid path : List Nat) : Bool :=
+  f (!via.isEmpty) (via.all (path.contains ·)) (!avoid.isEmpty) (avoid.any (path.contains ·))
+
+/-- The historical loop body as such a function (`acceptAsWritten = acceptOf asWrittenTree`). -/
+def asWrittenTree (vne allv ane anya : Bool) : Bool :=
+  if vne && allv then (if ane then !anya else true) else if ane && !anya then true else false
+
+/-- `find_bridging_path` with the guard of the shortest-path short cut as a parameter as well. -/
+def findPathG {τ} (shortcut : Bool → Bool → Bool) (accept : List Nat → List Nat → List Nat → Bool)
+    (G : List (GEdge τ)) (s t : Nat) (via avoid : List Nat) (shortest : Option (List Nat))
+    (enum : List (List Nat)) : Except FindErr (List Nat) :=
+  if G.isEmpty then .error .noRegs
+  else if !(nodes G).contains s then .error .srcUnknown
+  else if !(nodes G).contains t then .error .tgtUnknown
+  else if via.any fun v => !(nodes G).contains v then .error .viaUnknown
+  else if shortcut (!via.isEmpty) (!avoid.isEmpty) then
+    match shortest with
+    | some p => .ok p
+    | none => .error .noPath
+  else searchLoop (accept via avoid) enum
+
+/-- `bridging_graph` with the weight expressions as parameters (`fw` forward, `rw` reverse). -/
+def bridgingGraphOf {τ} (fw : Rat → Rat) (rw : Rat → Rat → Rat) (neg : τ → τ) (regs : List (Reg τ))
+    (recip : Option Rat) : List (GEdge τ) :=
+  ((bridges regs).map fun ri => ⟨ri.1.src, ri.1.tgt, ri.1.xf, fw ri.1.weight, ri.2, false⟩) ++
+    match recip with
+    | none => []
+    | some k => if k = 0 then [] else
+      ((bridges regs).filter fun ri => ri.1.invertible).map fun ri =>
+        ⟨ri.1.tgt, ri.1.src, neg ri.1.xf, rw ri.1.weight k, ri.2, true⟩
+
+/-- `register_transform` with the append condition and "clears the caches" as parameters. -/
+def registerOf {τ} [DecidableEq τ] (cond : Bool → Bool → Bool) (clears : Bool) (st : RegState τ)
+    (r : Reg τ) (skipExisting : Bool) : RegState τ :=
+  { regs := if cond skipExisting (st.regs.contains r) then st.regs ++ [r] else st.regs
+    cache := if clears then [] else st.cache }
+
+/-- `TransformSequence.__neg__` with "reverses the order" / "negates the members" as parameters. -/
+def negSeqOf {τ} (reverses negates : Bool) (neg : τ → τ) (ts : List τ) : List τ :=
+  (if reverses then ts.reverse else ts).map (if negates then neg else id)
+
+/-! ## `TransformSequence.__init__` / `append`: merging of appendable members -/
+
+/-- `append` of one member: `self.transforms[-1].append(tr)` is tried first (`merge l t = some c`: it
+succeeded and the last member now is `c`; `none`: `NotImplementedError`), otherwise the member is
+added to the list. -/
+def seqAppend {τ} (merge : τ → τ → Option τ) (ts : List τ) (t : τ) : List τ :=
+  match ts.getLast? with
+  | none => [t]
+  | some l =>
+    match merge l t with
+    | some c => ts.dropLast ++ [c]
+    | none => ts ++ [t]
+
+/-- `TransformSequence(*transforms)`. -/
+def seqBuild {τ} (merge : τ → τ → Option τ) (ts : List τ) : List τ := ts.foldl (seqAppend merge) []
+
+/-! ## Sequences of sequences, and when a registered transform is invertible -/
+
+/-- An argument of `TransformSequence(...)` / `append(...)`: a single transform, or a
+`TransformSequence` / list, which is unpacked into its members (sequences of sequences flatten). -/
+inductive Item (τ : Type) where
+  | one (t : τ)
+  | many (ts : List τ)
+
+def Item.members {τ} : Item τ → List τ
+  | .one t => [t]
+  | .many ts => ts
+
+/-- `append(item)`: every member goes through `seqAppend` (merging is still tried for each). -/
+def seqAppendItem {τ} (merge : τ → τ → Option τ) (ts : List τ) (it : Item τ) : List τ :=
+  it.members.foldl (seqAppend merge) ts
+
+/-- `TransformSequence(*items)` with transforms and sequences mixed. -/
+def seqBuildItems {τ} (merge : τ → τ → Option τ) (items : List (Item τ)) : List τ :=
+  items.foldl (seqAppendItem merge) []
+
+/-- All present, in order; `none` as soon as one is missing. -/
+def optAll {α} : List (Option α) → Option (List α)
+  | [] => some []
+  | none :: _ => none
+  | some a :: l => (optAll l).map (a :: ·)
+
+/-- `TransformSequence.__neg__` with members that may lack `__neg__` (`neg? t = none`: Python raises
+`TypeError: bad operand type for unary -`). -/
+def negSeq? {τ} (neg? : τ → Option τ) (ts : List τ) : Option (List τ) :=
+  optAll (ts.reverse.map neg?)
+
+/-- What `register_transform` looks at: a plain transform (does its class define `__neg__`?) or a
+`TransformSequence` (for each member: does its class define `__neg__`?). -/
+inductive TDesc where
+  | plain (hasNeg : Bool)
+  | seq (members : List Bool)
+deriving DecidableEq, Repr
+
+/-- The `invertible` flag of the record, with the computation of the source as a parameter
+(`f isSeq selfNeg allNeg`); `seqNeg`: the class `TransformSequence` defines `__neg__`. -/
+def recordInvertible (f : Bool → Bool → Bool → Bool) (seqNeg : Bool) : TDesc → Bool
+  | .plain h => f false h h
+  | .seq ms => f true seqNeg (ms.all id)
 
 end Navis.Bridge
